@@ -418,34 +418,33 @@ def check_first_layer_wins(repo, rep):
         while changed:
             changed = False
             for s in ast.walk(outer):
-                tgt = None
+                tgts = []
                 val = None
-                if isinstance(s, ast.Assign) and isinstance(
-                        s.targets[0], ast.Name):
-                    tgt, val = s.targets[0].id, s.value
+                if isinstance(s, ast.Assign):
+                    for t in s.targets:
+                        tgts += [x.id for x in ast.walk(t)
+                                 if isinstance(x, ast.Name)]
+                    val = s.value
                 elif isinstance(s, ast.Expr) and isinstance(
                         s.value, ast.Call) and isinstance(
                         s.value.func, ast.Attribute) and isinstance(
                         s.value.func.value, ast.Name) and \
-                        s.value.func.attr in ('append', 'add'):
-                    tgt, val = s.value.func.value.id, s.value
-                elif isinstance(s, ast.comprehension) and isinstance(
-                        s.target, (ast.Name, ast.Tuple)):
-                    for t in ast.walk(s.target):
-                        if isinstance(t, ast.Name) and any(
-                                isinstance(x, ast.Name) and x.id in derived
-                                for x in ast.walk(s.iter)) and \
-                                t.id not in derived:
-                            derived.add(t.id)
-                            changed = True
-                    continue
-                if tgt is None or tgt in derived:
+                        s.value.func.attr in ('append', 'add', 'extend',
+                                              'insert'):
+                    tgts, val = [s.value.func.value.id], s.value
+                elif isinstance(s, (ast.comprehension, ast.For)):
+                    tgts = [x.id for x in ast.walk(s.target)
+                            if isinstance(x, ast.Name)]
+                    val = s.iter
+                if val is None:
                     continue
                 if any(x is gc for x in ast.walk(val)) or any(
                         isinstance(x, ast.Name) and x.id in derived
                         for x in ast.walk(val)):
-                    derived.add(tgt)
-                    changed = True
+                    for t in tgts:
+                        if t not in derived:
+                            derived.add(t)
+                            changed = True
         # names read after the loop = the verdict
         after = set()
         parent_body = getattr(outer, '_parent', None)
@@ -455,21 +454,25 @@ def check_first_layer_wins(repo, rep):
                     if isinstance(x, ast.Name) and isinstance(
                             x.ctx, ast.Load) and x.id in derived:
                         after.add(x.id)
-        sel = [s for s in ast.walk(outer)
-               if (isinstance(s, ast.Assign) and isinstance(
-                   s.targets[0], ast.Name) and s.targets[0].id in after and
-                   model.enclosing(s, (ast.For, ast.While)) is outer)
-               or (isinstance(s, ast.Return) and s.value is not None and any(
-                   isinstance(x, ast.Name) and x.id in derived
-                   for x in ast.walk(s.value)))]
-        sel = [s for s in sel if not (isinstance(s, ast.Assign) and
-                                      isinstance(s.value, ast.Constant))]
+        sel = []
+        for s in ast.walk(outer):
+            if isinstance(s, ast.Assign) and not isinstance(
+                    s.value, ast.Constant):
+                names = {x.id for t in s.targets for x in ast.walk(t)
+                         if isinstance(x, ast.Name)}
+                if names & after and any(
+                        isinstance(x, ast.Name) and x.id in derived
+                        for x in ast.walk(s.value)):
+                    sel.append(s)
+            elif isinstance(s, ast.Return) and s.value is not None and any(
+                    isinstance(x, ast.Name) and x.id in derived
+                    for x in ast.walk(s.value)):
+                sel.append(s)
         n += 1
         if not sel:
-            rep.ob('R05d', fi.key + '/selection', False,
-                   'cannot find where the loop over layers selects the '
-                   'delegate', loc=mod.loc(outer))
-            continue
+            raise AnalysisError(
+                'R05d: cannot find where the loop over layers in '
+                'choose_overload selects the delegate (no verdict)')
         header = g.node_of(outer)
         for s in sel:
             if isinstance(s, ast.Return):
